@@ -58,11 +58,15 @@ func (f *Subtract) Call(s *slip.Scope, args slip.List, depth int) (dif slip.Obje
 				case slip.DoubleFloat:
 					dif = -td
 				case *slip.LongFloat:
-					dif = (*slip.LongFloat)((*big.Float)(td).Neg((*big.Float)(td)))
+					// Negate into a new value, the argument must not change.
+					var z big.Float
+					dif = (*slip.LongFloat)(z.Neg((*big.Float)(td)))
 				case *slip.Bignum:
-					dif = (*slip.Bignum)((*big.Int)(td).Neg((*big.Int)(td)))
+					var z big.Int
+					dif = (*slip.Bignum)(z.Neg((*big.Int)(td)))
 				case *slip.Ratio:
-					dif = (*slip.Ratio)((*big.Rat)(td).Neg((*big.Rat)(td)))
+					var z big.Rat
+					dif = (*slip.Ratio)(z.Neg((*big.Rat)(td)))
 				case slip.Complex:
 					dif = slip.Complex(-complex128(td))
 				}
@@ -79,15 +83,17 @@ func (f *Subtract) Call(s *slip.Scope, args slip.List, depth int) (dif slip.Obje
 		case slip.DoubleFloat:
 			dif = dif.(slip.DoubleFloat) - ta
 		case *slip.LongFloat:
+			// The difference goes into a new value since dif can be the
+			// first argument itself.
 			syncFloatPrec(ta, dif.(*slip.LongFloat))
-			dif = (*slip.LongFloat)(((*big.Float)(dif.(*slip.LongFloat))).Sub(
-				(*big.Float)(dif.(*slip.LongFloat)),
-				(*big.Float)(ta)),
-			)
+			var z big.Float
+			dif = (*slip.LongFloat)(z.Sub((*big.Float)(dif.(*slip.LongFloat)), (*big.Float)(ta)))
 		case *slip.Bignum:
-			dif = (*slip.Bignum)(((*big.Int)(dif.(*slip.Bignum))).Sub((*big.Int)(dif.(*slip.Bignum)), (*big.Int)(ta)))
+			var z big.Int
+			dif = (*slip.Bignum)(z.Sub((*big.Int)(dif.(*slip.Bignum)), (*big.Int)(ta)))
 		case *slip.Ratio:
-			dif = (*slip.Ratio)(((*big.Rat)(dif.(*slip.Ratio))).Sub((*big.Rat)(dif.(*slip.Ratio)), (*big.Rat)(ta)))
+			var z big.Rat
+			dif = (*slip.Ratio)(z.Sub((*big.Rat)(dif.(*slip.Ratio)), (*big.Rat)(ta)))
 		case slip.Complex:
 			dif = slip.Complex(complex128(dif.(slip.Complex)) - complex128(ta))
 		}
